@@ -71,6 +71,15 @@ def hard_soft(text: str):
     return sorted(hard), sorted(soft), list(g.rules)
 
 
+FAILING_WARMUPS = (
+    "start: a_without_invalid NEWLINE\na_without_invalid: x=NAME { x + }\n",
+    "start: (x=NAME { x + })* NEWLINE\n",
+    "start: ','.(x=NAME { ) })+ [y=NUMBER { y y }] NEWLINE\n",
+    "start: a NEWLINE\na: b 'x' | c 'x' | 'q'\nb: a 'y' | c 'y'\nc: a 'z' | b 'z'\n",
+    "start: b_without_invalid\nb_without_invalid: &&(x=NAME { x + }) ~ NAME\n",
+)
+
+
 def run_sub(entry, grammars, seed, warmup=()):
     env = dict(os.environ)
     env["PYTHONPATH"] = f"{common.REPO / 'src'}:{common.VERIF / 'harness'}"
@@ -175,7 +184,10 @@ def run(chk: common.Check, tier: str):
         chk.oblige("determinism runs: child process", False, err)
         return
     configs = [("memory", s, ()) for s in (1, 2, 3, 5, 7, 11, "random")] + [("build", 0, ()), ("cli", 3, ()), ("twice", 5, ()),
-               ("memory", 4, tuple(r.sample(sample, min(5, len(sample)))))]
+               ("memory", 4, tuple(r.sample(sample, min(5, len(sample))))),
+               # earlier generations in the same process that FAILED half-way (in a *_without_invalid rule, inside a
+               # helper rule, in the leader analysis): whatever they left behind must not leak into later outputs
+               ("memory", 6, FAILING_WARMUPS), ("twice", 2, FAILING_WARMUPS)]
     for entry, seed, warm in configs:
         got, err = run_sub(entry, sample, seed, warm)
         if got is None:
